@@ -108,7 +108,7 @@ CLAIMED.update({
    design='5/C08'),
  'C09': dict(
    technique='Lean 4 proof: invariant over all paths of the load resource machine (release exactly once, after the last use), lifetime algebra of the API signatures; correspondence by leak measurement (counting allocator, /proc/self/maps) and compile outcomes of probe programs',
-   text='Kernel-checked: release_once (for every loader and every path — open/map/read failure, deserialization returning an error or panicking, success followed by any number of uses and the drop — the backing region is acquired at most once, released exactly as many times, never used after release), fail_no_leak, eps_borrow_bounded, case_ref_bounded, and case_copy_unbounded (the recorded finding: a structure copied out of a MemCase carries a caller-chosen lifetime). The run repeats failing loads (truncations, corrupted header, foreign type, garbage) and succeeding loads per loader under a counting global allocator and a mapping count, and compiles 9 probe programs, one per access path, against the working tree.',
+   text='Kernel-checked: release_once (for every loader and every path — open/map/read failure, deserialization returning an error or panicking, success followed by any number of uses and the drop — the backing region is acquired at most once, released exactly as many times, never used after release), fail_no_leak, partial_array_released / array_ok_owns_items (ownership ledger of the item-by-item construction of arrays under the drop guard: nothing stays alive on an error or a panic in any item; unguarded_array_leaks states the repaired defect), eps_borrow_bounded, case_ref_bounded, and case_copy_unbounded (the recorded finding: a structure copied out of a MemCase carries a caller-chosen lifetime). The run repeats failing loads (truncations, corrupted header, foreign type, garbage) and succeeding loads per loader under a counting global allocator and a mapping count, and compiles 9 probe programs, one per access path, against the working tree.',
    note='rustc\'s borrow checker is the implementation of the lifetime rules: "all safe client programs" is covered by one probe per access path, not by a theorem about rustc (partial). Two known findings (probes that should be rejected compile) are listed in known_findings.json.',
    design='5/C09'),
 })
